@@ -34,18 +34,24 @@ STR = "strings are concatenations of atoms of an uninterpreted sort with attribu
 NET = "net.ResolveTCPAddr is nondeterministic in its address argument (success returns a non-nil *TCPAddr, failure returns (nil *TCPAddr, err)); net.ResolveUnixAddr(\"unix\", x) never fails"
 CRYPTO = "base64 decoding and x509 parsing are uninterpreted predicates of the field (with realisability facts); CertPool is opaque"
 ENGINE = "Trusted: z3 4.8.12; the SSA interpreter and the environment models of DESIGN.md section 4 (each listed in the evidence file)."
+WORLD = ["prims.go", "w_base.go", "w_net.go", "w_yamux.go", "w_grpc.go", "w_compose.go", "w_harness.go"]
+WORLD_ASSUME = ["world model (harness/w_*.go): processes with per-process environment, pipes, ghost file system, listeners and connections by address, yamux sessions/streams as FIFO pairs, net/rpc calls served by the real receiver in a goroutine of the peer process with marshalled (copied) arguments, gRPC cut at the generated-code interfaces (real broker/controller/stdio implementations registered and served), crypto/tls as a contract over tls.Config fields with certificates as identities",
+                "the plugin process runs go-plugin's real Serve; the host runs the real NewClient/Start/Client/Dispense/Kill; launch through a RunnerFunc runner or through exec.Cmd models under the real CmdRunner"]
+WORLD_STUBS = ["os/exec", "os (files, pipes, env, exit)", "net", "bufio", "io.Copy", "context", "crypto/tls", "crypto/x509", "encoding/base64", "generateCert", "yamux", "net/rpc", "grpc", "health/reflection registration", "cmdrunner.additionalNotesAboutCommand"]
 
 # ------------------------------------------------------------------------------------------------ C01 / C05
 C01_BOUND = "first stdout line = any byte string with <= 8 '|'-separated fields of unbounded length; process behaviour in {line at symbolic instant, EOF while alive, silent, dies before output}; AllowedProtocols in {nil,[netrpc],[grpc],[netrpc,grpc]}; TLSConfig nil/set; GRPCBrokerMultiplex on/off; one offered version (symbolic, >= 0); RunnerFunc launch"
 prop("C01", ["prims.go", "c01.go"],
-     [run("start", "harnessC01", ["accepted", "rejected"], quick={"bound": C01_BOUND})],
+     [run("start", "harnessC01", ["accepted", "rejected"], quick={"bound": C01_BOUND, "witness": 24}, native="start")],
      [PROC, BUFIO, CTX, STR, NET, CRYPTO, "StartTimeout = 60 s on the symbolic clock"],
      ["bufio.Scanner", "bufio.Reader", "context", "os.Environ/MkdirTemp/RemoveAll", "net.Resolve*", "encoding/base64", "crypto/x509", "hclog.Logger (no-op)"],
      "a second stdout line; more than 8 fields (the code reads indices <= 6); what the real resolver does with particular addresses; launch by exec.Cmd",
      text="Bounded symbolic model checking of the whole real Client.Start (option checks, environment construction, deferred kill/re-panic, its goroutines, the select, the parser, checkProtoVersion, loadServerCert) against a reference predicate over the fields of the first stdout line: for every line (all byte strings, <= 8 fields) and every configuration in the bound the solver shows Start errs or returns a usable address, succeeds only for well-formed lines, reports exactly the line's protocol/version, never panics and returns within the start timeout on a symbolic clock.",
      note="Bound: " + C01_BOUND + ". Contracts: resolver, base64 and x509 outcomes are uninterpreted predicates; bufio/context/process are models. " + ENGINE)
 prop("C05", ["prims.go", "c01.go"],
-     [run("start", "harnessC01", ["rejected"], quick={"bound": "as C01: every rejection cause the solver finds feasible (each field invalid in turn, timeout, EOF while alive, exit before output) x the configuration space of C01"})],
+     [run("start", "harnessC01", ["rejected"], native="start", quick={"witness": 24, "bound": "as C01: every rejection cause the solver finds feasible (each field invalid in turn, timeout, EOF while alive, exit before output) x the configuration space of C01"}),
+      run("kill-after", "harnessC05killAfter", ["start-failed", "start-succeeded", "kill-later"], files=WORLD,
+          quick={"bound": "scripted plugins announcing five kinds of line (multiplexing unsupported, 4-field, net/rpc, gRPC, garbage) x allowed list x launch {RunnerFunc, exec.Cmd}; after a failed Start, Kill at once or three seconds later: returns promptly, process dead, socket directory removed"})],
      [PROC, BUFIO, CTX, STR, NET, CRYPTO], ["as C01"],
      "launch by exec.Cmd (the real CmdRunner); process liveness is the model's (Kill was called on the runner)",
      text="Same symbolic run of the real Client.Start as C01 with the kill clause as the assertion: on every feasible path on which the runner was started and Start returns an error or panics, the runner's Kill has been called by then. Failure causes are not enumerated by hand - they are the paths the solver finds feasible.",
@@ -62,7 +68,9 @@ prop("C02", ["prims.go", "c02a.go"],
 # ------------------------------------------------------------------------------------------------ C13
 prop("C13", ["prims.go", "c13.go"],
      [run("check", "harnessC13", ["match", "mismatch", "empty-checksum", "nil-hash", "open-fails"],
-          quick={"bound": "digest <= 4 bytes and checksum <= 5 bytes of BitVec 8, symbolic lengths; Hash nil or not; file open failing or not"})],
+          quick={"bound": "digest <= 4 bytes and checksum <= 5 bytes of BitVec 8, symbolic lengths; Hash nil or not; file open failing or not"}),
+      run("start-order", "harnessC13start", ["launched", "refused", "runnerfunc-refused"], files=WORLD,
+          quick={"bound": "whole Client.Start composed with a real plugin, launch through exec.Cmd and through a RunnerFunc, SecureConfig with digest <= 2 and checksum <= 3 symbolic bytes: the process is launched iff the checksum matches"})],
      ["hash.Hash is a harness implementation returning an arbitrary digest (the hash function itself is outside the claim)", "os.Open/io.Copy/File.Close modelled: open may fail"],
      ["os.Open", "io.Copy", "hash.Hash"], "digests longer than the bound; the hash function",
      text="Bounded symbolic model checking of the real SecureConfig.Check (including the real crypto/subtle.ConstantTimeCompare SSA) over every digest/checksum byte string within the length bound: the solver shows Check returns (true,nil) iff checksum == digest, and the documented sentinel errors otherwise. Right level because the property is a universal statement over byte strings whose rare points (prefix, extension, one flipped bit) are satisfying assignments, not samples.",
@@ -101,7 +109,9 @@ prop("C16", ["prims.go", "c16.go"],
 # ------------------------------------------------------------------------------------------------ C17
 prop("C17", ["prims.go", "c17.go"],
      [run("env", "harnessC17", ["automtls", "no-automtls"],
-          quick={"bound": "one arbitrary host environment entry K=V (K, V arbitrary strings - the solver may choose K = PLUGIN_CLIENT_CERT etc.); AutoMTLS x GRPCBrokerMultiplex x SkipHostEnv; RunnerFunc capturing cmd.Env and cmd.Stdin"})],
+          quick={"bound": "one arbitrary host environment entry K=V (K, V arbitrary strings - the solver may choose K = PLUGIN_CLIENT_CERT etc.); AutoMTLS x GRPCBrokerMultiplex x SkipHostEnv; RunnerFunc capturing cmd.Env and cmd.Stdin"}),
+      run("env-world", "harnessC17world", ["cmd-launch", "runner-launch", "socket-group", "skip-host-env"], files=WORLD,
+          quick={"bound": "composed with a real plugin: launch {exec.Cmd under the real CmdRunner, RunnerFunc} x protocol x AutoMTLS x multiplexing x UnixSocketConfig.Group set/unset x SkipHostEnv x one arbitrary host variable; checked: cookie, port range, version list, client certificate, multiplexing flag, socket group, socket directory, stdin"})],
      [PROC, BUFIO, CTX, STR, "effective value of a variable in the child = last duplicate in cmd.Env (os/exec dedup rule)", "generateCert opaque"],
      ["os.Environ", "generateCert", "bufio", "context"],
      "more than one ambient host variable; cmd.Env pre-set by the caller; launch by exec.Cmd",
@@ -131,10 +141,6 @@ prop("C15", ["prims.go", "c15.go"],
      "histories longer than the ones listed; custom ReattachFunc implementations other than the default",
      text="Bounded symbolic model checking of the real reattach / ReattachConfig / Kill with cmdrunner.ReattachFunc, CmdAttachedRunner and pidWait, alone and composed with the plugin's real Serve (as a process and in test mode): nothing listening => ErrProcessNotFound; a client built from a running plugin's reattach configuration (also at second hand) reaches that same instance with the same protocol and can dispense; Kill on it terminates that plugin - except in test mode, where the server keeps running and stops only when its context is cancelled.",
      note="Bound: the listed histories. Process table, dial and ticker are models. " + ENGINE)
-WORLD = ["prims.go", "w_base.go", "w_net.go", "w_yamux.go", "w_grpc.go", "w_compose.go", "w_harness.go"]
-WORLD_ASSUME = ["world model (harness/w_*.go): processes with per-process environment, pipes, ghost file system, listeners and connections by address, yamux sessions/streams as FIFO pairs, net/rpc calls served by the real receiver in a goroutine of the peer process with marshalled (copied) arguments, gRPC cut at the generated-code interfaces (real broker/controller/stdio implementations registered and served), crypto/tls as a contract over tls.Config fields with certificates as identities",
-                "the plugin process runs go-plugin's real Serve; the host runs the real NewClient/Start/Client/Dispense/Kill; launch through a RunnerFunc runner or through exec.Cmd models under the real CmdRunner"]
-WORLD_STUBS = ["os/exec", "os (files, pipes, env, exit)", "net", "bufio", "io.Copy", "context", "crypto/tls", "crypto/x509", "encoding/base64", "generateCert", "yamux", "net/rpc", "grpc", "health/reflection registration", "cmdrunner.additionalNotesAboutCommand"]
 prop("C14", WORLD,
      [run("matrix", "harnessC14matrix", ["works", "protocol-refused", "tls-mismatch", "automtls", "mux"],
           quick={"bound": "host x plugin composed: plugin protocol {net/rpc, gRPC} x AllowedProtocols {default, both, gRPC only} x transport security {none, AutoMTLS, static TLS both sides, host only, plugin only} x launch {RunnerFunc, exec.Cmd} x multiplexing {off, on (gRPC)}; healthy plugin; Start, Client, Dispense (known and unknown name), call, Ping, Kill"}),
@@ -217,11 +223,11 @@ prop("C09", ["prims.go", "c09a.go"],
 NETRPC = "net/rpc model: Call(\"Svc.Method\") runs the real registered receiver method in a goroutine of the peer; fails when the connection is closed"
 prop("C06", ["prims.go", "c06.go"],
      [run("routing", "harnessC06", ["dispensed", "routed"], dpor=True,
-          quick={"max_reversals": 1, "bound": "two Dispense calls + two symbolic distinct IDs accepted on the host and dialled from the plugin within a symbolic gap < 5 s in either order"})],
+          quick={"max_reversals": 2, "bound": "two Dispense calls + two symbolic distinct IDs accepted on the host and dialled from the plugin within a symbolic gap < 5 s in either order; all schedules with <= 2 reversals"})],
      [YAMUX, NETRPC], ["yamux", "net/rpc", "encoding/binary"],
      "byte transport on a stream (yamux contract); 3 IDs; more than 1 reversal in quick",
      text="Bounded symbolic model checking of the real MuxBroker (Accept/Dial/Run/NextId/AcceptAndServe), dispenseServer.Dispense, RPCClient.Dispense and serve over paired-session yamux and net/rpc models, all schedules up to the reversal bound: Accept(n) returns the far end of the stream Dial(n) returned, and each Dispense reaches the server object created for that dispense.",
-     note="Bound: 2 IDs, 2 dispenses, DPOR with 1 reversal. " + ENGINE)
+     note="Bound: 2 IDs, 2 dispenses, DPOR with 2 reversals (a check-then-act atomicity bug in getStream needs two). " + ENGINE)
 prop("C07", ["prims.go", "c07.go"],
      [run("routing", "harnessC07", ["accept-first", "dial-first", "routed"], dpor=True,
           quick={"max_reversals": 1, "bound": "ID a accepted on the plugin and dialled from the host, ID b the other way round; symbolic distinct IDs; symbolic gap < 5 s either order"})],
